@@ -481,7 +481,11 @@ Proof.
   - apply orb_false_elim in Erej. destruct Erej as [E1 E2]. apply Z.leb_gt in E1. apply Z.ltb_ge in E2.
     destruct (fleet_mode a) eqn:Ef; cbn [negb].
     + destruct (c17_fleet_thm a d o calls r a' E1 E2 Ef Einc) as [H1 [H2 [H3 [H4 H5]]]].
-      rewrite H1, H3, H4. apply Nat.leb_le in H2. rewrite H2. simpl.
+      rewrite H1, H3, H4.
+      assert (H2' : (length (accepted_fleet_calls calls) <= 1)%nat).
+      { eapply Nat.le_trans; [|exact H2]. unfold accepted_fleet_calls, fleet_calls. clear.
+        induction calls as [|c l IH]; [simpl; lia|]. destruct c as [| | |t m ct ok fk no tp [|]| | |]; simpl; lia. }
+      apply Nat.leb_le in H2'. rewrite H2'. simpl.
       destruct (inc_class r =? 0) eqn:Ec; [|reflexivity].
       apply inc_class_ok in Ec. destruct (H5 Ec) as [G1 [G2 G3]]. rewrite G1, G2. apply same_multiset_perm. reflexivity.
     + destruct (c17_set_desired_thm a d o E1 E2 Ef) as [H1 H2]. rewrite H1 in Einc. inversion Einc; subst.
